@@ -223,9 +223,13 @@ def check_case(case, ctx):
     )
     # iteration protocol
     g3 = make(params)
+    lim = params["iteration_limit"]
+    if case["n"] % 2 and lim >= 2:
+        # a pass abandoned after its first element does not shorten the next
+        for _inst in g3:
+            break
     first = list(g3)
     second = list(g3)
-    lim = params["iteration_limit"]
     ctx.check(
         len(first) == lim and len(second) == lim and len(g3) == lim,
         "iteration-limit",
